@@ -258,6 +258,9 @@ type version struct {
 	// protoNative: the leaf type is itself a proto.Message; it has no leaf
 	// encoder and no leaf decoder (types_proto.go).
 	protoNative bool
+	// marked: marker lineage only (types_marker.go): the same version whose
+	// constructors give the instances another ErrorKeyMarker.
+	marked func(mark string) *version
 }
 
 func (v *version) leafType() reflect.Type  { return reflect.TypeOf(v.leafProto) }
@@ -358,9 +361,20 @@ type lineage struct {
 	// protoNative: the proto-native leaf lineage (types_proto.go); only
 	// processes at the newest name are receivers.
 	protoNative bool
+	// marker: the types implement ErrorKeyMarker (types_marker.go).
+	marker bool
 }
 
 func (l *lineage) maxN() int { return len(l.chain) - 1 }
+
+// allKinds is kinds plus the middle-layer kind, which has its own, smaller
+// enumeration.
+func (l *lineage) allKinds() []string {
+	if l.protoNative {
+		return l.kinds
+	}
+	return append(append([]string{}, l.kinds...), kindMid)
+}
 
 // versions lists every version of the lineage.
 func (l *lineage) versions() []*version {
@@ -382,6 +396,7 @@ var (
 		{name: "generic-named", chain: genericChain[Payload](), kinds: genericKinds},
 		{name: "generic-pointer", chain: genericChain[*Payload](), kinds: genericKinds},
 		protoNativeLineage,
+		markerLineage,
 	}
 )
 
